@@ -67,6 +67,19 @@ func (n *walletNode) sync() {
 	}
 }
 
+// value of the fresh output the host is given for the wallet-behind relation
+var freshOutputValue = types.Siacoins(3000)
+
+// hasFreshOutput: the host still holds that output (it is selected first).
+func (w *world) hasFreshOutput() bool {
+	for _, a := range w.H.avail() {
+		if !a.Unconf && a.Value.Cmp(freshOutputValue) >= 0 {
+			return true
+		}
+	}
+	return false
+}
+
 type liveContract struct {
 	ID       types.FileContractID
 	Revision types.V2FileContract
@@ -98,9 +111,12 @@ type world struct {
 	trk        *tracker
 	client     *tcpClient
 
-	rel       string
-	contracts []liveContract
-	attemptNo int
+	rel string
+	// holdHostWallet: the host's wallet is not told about new blocks of the
+	// host's own chain manager (relation wallet-behind)
+	holdHostWallet bool
+	contracts      []liveContract
+	attemptNo      int
 }
 
 func seededKey(r interface{ Bytes([]byte) }) types.PrivateKey {
@@ -194,9 +210,10 @@ func (w *world) mineHost(addr types.Address, feedRenter bool) {
 
 // pay puts a bank transaction with n outputs of 1000 SC to addr into the
 // host's pool (the next host block confirms it).
-func (w *world) pay(addr types.Address, n int) {
+func (w *world) pay(addr types.Address, n int) { w.payValue(addr, n, types.Siacoins(1000)) }
+
+func (w *world) payValue(addr types.Address, n int, unit types.Currency) {
 	w.B.sync()
-	unit := types.Siacoins(1000)
 	fee := types.Siacoins(1)
 	txn := types.V2Transaction{MinerFee: fee}
 	for i := 0; i < n; i++ {
@@ -243,7 +260,9 @@ func (w *world) topUp() {
 }
 
 func (w *world) afterHostChange() {
-	w.H.sync()
+	if !w.holdHostWallet {
+		w.H.sync()
+	}
 	w.B.sync()
 	deadline := time.Now().Add(10 * time.Second)
 	for {
@@ -283,6 +302,8 @@ func (w *world) feedRenter(h int) {
 // resync brings the renter's node to the host's tip (the host's chain is made
 // heavier first if the renter sits on a fork of its own).
 func (w *world) resync() {
+	w.holdHostWallet = false
+	w.H.sync()
 	for w.cmR.Tip() != w.cmH.Tip() {
 		if w.cmR.Tip().Height >= w.cmH.Tip().Height {
 			idx, ok := w.cmH.BestIndex(w.cmR.Tip().Height)
@@ -325,6 +346,8 @@ func (w *world) mineRenterOnly(n int) []types.Block {
 //	fork-ok    the renter sits on a one-block fork the host applied and left
 //	fork-stale the renter sits on a fork the host stored but never applied
 //	unknown    the renter sits on a fork the host has never seen
+//	wallet-behind  renter and host chain manager on the same tip, the host's
+//	           wallet 3 blocks behind its own chain manager
 func (w *world) setRelation(rel string) {
 	if w.rel == rel && rel != "same" {
 		return
@@ -339,6 +362,16 @@ func (w *world) setRelation(rel string) {
 	case "unknown":
 		w.mineRenterOnly(1)
 		w.mineHost(types.VoidAddress, false)
+	case "wallet-behind":
+		// the renter follows the host's chain manager, the host's own wallet has
+		// not processed the last 3 blocks; its largest output is fresh, so its
+		// Merkle proof differs between the wallet's tip and the manager's tip
+		w.payValue(w.H.w.Address(), 1, freshOutputValue)
+		w.mineHost(types.VoidAddress, true)
+		w.holdHostWallet = true
+		for i := 0; i < 3; i++ {
+			w.mineHost(types.VoidAddress, true)
+		}
 	case "fork-stale":
 		bs := w.mineRenterOnly(1)
 		w.mineHost(types.VoidAddress, false)
@@ -382,7 +415,7 @@ func (w *world) setRelation(rel string) {
 // one more block behind / keep their fork.
 func (w *world) confirm() (types.ChainIndex, []chain.ApplyUpdate) {
 	prev := w.cmH.Tip()
-	w.mineHost(types.VoidAddress, w.rel == "same")
+	w.mineHost(types.VoidAddress, w.rel == "same" || w.rel == "wallet-behind")
 	_, applied, err := w.cmH.UpdatesSince(prev, 10)
 	must(err)
 	return prev, applied
